@@ -5,7 +5,9 @@ H = "boost/gil/histogram.hpp"
 CT = {"u8": "uint8_t", "i8": "int8_t", "u16": "uint16_t", "i16": "int16_t"}
 SYMS = []
 for s, S in CT.items():
-    SYMS.append(Sym(H, r"ch = (ch / bin_width);", "scale_%s" % s, [("ch", S), ("bin_width", "std::size_t")], ret=S, expr=True,
+    # the body of the lambda `[&](channel_t& ch) { ch = ch / bin_width; }` as a mutator of `ch` (a named temporary is fine)
+    SYMS.append(Sym(H, r"static_for_each\(scaled_px, \[&\]\(channel_t& ch\)", "scale_%s" % s, [("ch", S), ("bin_width", "std::size_t")], ret=None,
+                    outputs=["ch"], subst=[(r"auto const", "std::size_t"), (r"\bauto\b", "std::size_t")],
                     doc="histogram::fill: `ch = ch / bin_width` for channel type %s (the division is carried out in std::size_t)" % S))
 for t, T in (("int", "int"), ("u8", "uint8_t")):
     SYMS.append(Sym(H, r"for \(auto i = std::get<0>\(lower\); (static_cast<std::size_t>\(std::get<0>\(upper\) - i\) >= bin_width); i \+= bin_width\)",
